@@ -598,6 +598,22 @@ pub mod gen {
         ]
         .boxed()
     }
+    /// moderate values most of the time, otherwise any magnitude in [1e-30, 1e15] (both signs): for oracles that
+    /// carry their own error bound or are exact, where the statement says "all finite values"
+    pub fn wide() -> BoxedStrategy<f32> {
+        prop_oneof![
+            6 => moderate(),
+            3 => (any::<bool>(), -30.0f64..15.0f64).prop_map(|(neg, e)| {
+                let v = 10f64.powf(e) as f32;
+                if neg { -v } else { v }
+            }),
+        ]
+        .boxed()
+    }
+    /// moderate values most of the time, otherwise any finite f32 (subnormals, extremes): for exact oracles only
+    pub fn mostly_moderate_any_finite() -> BoxedStrategy<f32> {
+        prop_oneof![5 => moderate(), 3 => finite_f32()].boxed()
+    }
     pub fn moderate_nonzero() -> BoxedStrategy<f32> {
         moderate().prop_map(|x| if x == 0.0 { 1.5 } else { x }).boxed()
     }
